@@ -68,7 +68,7 @@ def tla(v):
     raise TypeError(v)
 
 
-INVS = ['InvNoOvershoot', 'InvBudget', 'InvSurplus', 'InvNotBoth', 'InvQuiet', 'InvRate',
+INVS = ['InvNoOvershoot', 'InvBudget', 'InvSurplus', 'InvNotBoth', 'InvQuiet', 'InvQuietObs', 'InvRate',
         # extension beyond C20: the bookkeeping published in /app-monitors
         'InvExtPubSusp', 'InvExtWaitedPublished']
 
@@ -158,7 +158,41 @@ def _generate_tlc(ctx):
                                    procs=6 if ctx.quick else 12, extra_files=files,
                                    timeout=120 if ctx.quick else 900)
     ctx.cmds.append(cmd)
-    return [('tlc', labels_to_history(b)) for b in behaviours]
+    # TLC's ticks (0 / 600 / 1800 / 3600 s) end every 300 s back-off at once; a third of the
+    # behaviours continue with the suspend / delete-while-suspended / fail-again scenario
+    rng = random.Random(ctx.seed * 613 + 20)
+    out = []
+    for b in behaviours:
+        h = labels_to_history(b)
+        if rng.random() < 0.34:
+            h += backoff_scenario(rng, sorted(REAL.values()))
+        out.append(('tlc', h))
+    return out
+
+
+def backoff_scenario(rng, apps):
+    """suspend (handled API failure) -> that monitor is DELETED while suspended -> later
+    handled failures of the same name (after a new Configure) and of other names ->
+    evaluations inside the 300 s back-off (no call allowed) and after it."""
+    fail = lambda: rng.choice(drv.OUTCOMES[1:4])           # notfound / badrequest / validation
+    first = rng.choice(apps)
+    steps = [['Configure', first, rng.choice([1, 2, 3]), rng.choice(['', 'fifo', 'lifo'])],
+             ['Evaluate', {first: fail()}]]
+    if rng.random() < 0.5:
+        steps.append(['Tick', rng.choice([0, 1, 60, 299])])
+    steps.append(['DeleteMonitor', first])
+    if rng.random() < 0.7:
+        steps.append(['Evaluate', {}])                     # the evaluation that drops the entry
+    victims = [first] if rng.random() < 0.5 else []
+    victims += [a for a in apps if a != first and rng.random() < 0.7]
+    if not victims:
+        victims = [first]
+    for a in victims:
+        steps.append(['Configure', a, rng.choice([1, 2, 4]), rng.choice(['', 'fifo', 'lifo'])])
+    steps.append(['Evaluate', {a: fail() for a in victims}])
+    for dt in rng.sample([0, 1, 7, 60, 150, 299], rng.randint(1, 3)) + [rng.choice([300, 301, 600])]:
+        steps += [['Tick', dt], ['Evaluate', {a: fail() for a in victims if rng.random() < 0.3}]]
+    return steps
 
 
 def rand_history(rng, depth):
@@ -202,6 +236,9 @@ def rand_history(rng, depth):
             hist.append(['Configure', a, rng.choice([0, 1, 2, 3, 4, 6]), pol()])
         else:
             hist.append(['DeleteMonitor', a])
+    if rng.random() < 0.35:
+        at = rng.randint(0, len(hist))
+        hist[at:at] = backoff_scenario(rng, apps)
     hist.append(['Evaluate', {}])
     return hist
 
